@@ -156,7 +156,7 @@ def main():
         "hooks": {"guard": "ISAL_VERIF", "enable": "-DISAL_VERIF passed by the harness build (goto-cc/gcc); no hook is currently needed",
                   "baseline_off_cmd": "cd /repo && make -j8 check", "source_commits": [], "add_only": True},
         "engines": [
-            {"name": "cbmc-c", "path": "vlib/cbmc.py", "serves_properties": [p for p in props if p in CHECKS and CHECKS[p]["engine"].startswith("cbmc")],
+            {"name": "cbmc-c", "path": "vlib/cbmc.py", "serves_properties": [p for p in props if p in CHECKS and "cbmc" in CHECKS[p]["engine"]],
              "kind_free_text": "CBMC 6.11 bounded model checking of the real C translation units (goto-cc with the build's -I/-D), harness per property, native replay of counterexamples"},
             {"name": "x86sym", "path": "vlib/x86sym", "serves_properties": [p for p in props if p in CHECKS and "x86sym" in CHECKS[p]["engine"]],
              "kind_free_text": "own symbolic interpreter for the assembled nasm kernels (objdump -> z3 bit-vector terms), translator validated against native execution each run"},
